@@ -165,6 +165,14 @@ fn run_program(line: &str) -> String {
                     if let Some(c) = c { w.lock().unwrap().handles.insert(n(2), c); }
                 }
                 "dr" => { let s = w.lock().unwrap().handles.remove(&n(2)); drop(s); }
+                "cf" => {
+                    // `cf t a b n`: handle a is OVERWRITTEN with a clone of handle b (`Clone::clone_from`); the result is handle n
+                    let mut g = w.lock().unwrap();
+                    if let Some(mut a) = g.handles.remove(&n(2)) {
+                        if let Some(b) = g.handles.get(&n(3)) { a.clone_from(b); }
+                        g.handles.insert(n(4), a);
+                    }
+                }
                 "drp" => {
                     // the handle is dropped while its thread is unwinding (a local of a frame a caught panic unwinds through)
                     let s = w.lock().unwrap().handles.remove(&n(2));
